@@ -275,6 +275,8 @@ func (x *Exec) vcIntrinsic(fr *Frame, name string, args []Value, pos token.Pos) 
 			return Scalar{False()}
 		}
 		return Scalar{x.valEqual(x.snap(iv.V), x.snap(l[0]))}
+	case "Faulted":
+		return Scalar{Or(x.getFlag(faultFlag), x.getFlag(buildFaultFlag))}
 	case "GhostLen":
 		name := x.constStr(args[0])
 		if l := x.st.ghost[name]; len(l) == 1 {
